@@ -429,6 +429,24 @@ theorem foldl_putState_perm : ∀ (l store : List DState), (∀ t ∈ store, ∀
     refine (List.Perm.append_right rest hput).trans ?_
     exact (List.perm_middle (a := s) (l₁ := store) (l₂ := rest)).symm
 
+theorem mem_foldl_putState : ∀ (l store : List DState) (t : DState), t ∈ l.foldl putState store → t ∈ store ∨ t ∈ l
+  | [], store, t, h => Or.inl h
+  | s :: rest, store, t, h => by
+    rw [List.foldl_cons] at h
+    rcases mem_foldl_putState rest _ t h with h1 | h1
+    · unfold putState at h1
+      rcases List.mem_cons.mp ((insertBy_perm _ s _).mem_iff.mp h1) with h2 | h2
+      · right; rw [h2]; simp
+      · left; exact (List.mem_filter.mp h2).1
+    · right; simp [h1]
+
+/-- whatever the keys, everything in the store after the write was in the list -/
+theorem mem_storeStates (l : List DState) (t : DState) (h : t ∈ storeStates l) : t ∈ l := by
+  rw [storeStates_eq] at h
+  rcases mem_foldl_putState l [] t h with h1 | h1
+  · cases h1
+  · exact h1
+
 /-- with pairwise different keys the store write is a rearrangement of the list -/
 theorem storeStates_perm (l : List DState) (h : (keysOf l).Nodup) : (storeStates l).Perm l := by
   rw [storeStates_eq]
